@@ -475,11 +475,16 @@ where
             )));
         };
 
-        rrset.push_data(data);
+        rrset.push_data(data.clone());
 
         if let Some(existing_rrset) = tree_node.get_rrset(rtype).await? {
             for existing_data in existing_rrset.data() {
-                rrset.push_data(existing_data.clone());
+                // An RRset is a set: a record that is already present is
+                // not added a second time (RFC 5936 section 2.2: "AXFR
+                // clients MUST ignore any duplicate RRs received").
+                if *existing_data != data {
+                    rrset.push_data(existing_data.clone());
+                }
             }
         }
 
